@@ -720,15 +720,17 @@ def r_raw2(E):
     res = RuleResult("R-RAW2", "an operation combining raw arrays taken from two series (np.maximum / np.minimum) "
                                "requires both operands aligned on one index and expressed in one unit")
     for mod, (rel, tree, src) in sorted(pm.modules.items()):
+        from ..astutil import callee_texts
         for call in ast.walk(tree):
-            if not (isinstance(call, ast.Call) and isinstance(call.func, ast.Attribute)
-                    and call.func.attr in ("maximum", "minimum") and isinstance(call.func.value, ast.Name)
-                    and call.func.value.id == "np" and len(call.args) == 2):
+            if not (isinstance(call, ast.Call) and len(call.args) == 2):
                 continue
             fn = call
             while fn is not None and not isinstance(fn, ast.FunctionDef):
                 fn = getattr(fn, "_parent", None)
             if fn is None:
+                continue
+            cts = callee_texts(call, fn)
+            if not cts or not cts <= {"np.maximum", "np.minimum"}:
                 continue
             q = fn.name
             res.instances += 1
@@ -764,11 +766,12 @@ def r_raw2(E):
                 if set(d) != set(names):
                     continue
                 checked += 1
-                texts = {nm: norm(d[nm].value) for nm in names}
+                from ..astutil import fully_expanded
+                texts = {nm: norm(fully_expanded(d[nm].value, fn)) for nm in names}
                 aligned = False
                 reidx = []
                 for nm in names:
-                    cs = [x for x in ast.walk(d[nm].value) if isinstance(x, ast.Call) and isinstance(x.func, ast.Attribute)
+                    cs = [x for x in ast.walk(fully_expanded(d[nm].value, fn)) if isinstance(x, ast.Call) and isinstance(x.func, ast.Attribute)
                           and x.func.attr in ("reindex", "align") and x.args]
                     reidx.append(norm(cs[0].args[0]) if cs else None)
                 if reidx[0] is not None and reidx[0] == reidx[1]:
@@ -828,7 +831,7 @@ def r_raw2(E):
                         f"{q}: `{norm(n)[:70]}` combines the raw arrays of two series ({a}, {b}) element by position: "
                         f"series that do not cover exactly the same hours (a gap, a daylight-saving change, another time "
                         f"window of equal length) are paired hour i with hour i", rel, n.lineno, q))
-    res.floor = 2
+    res.floor = 1     # the element-wise max / min of np_compared_with (two calls today, one if the callee is chosen first)
     return res
 
 
